@@ -105,6 +105,7 @@ type c05Obs struct {
 	NSubcharts int               `json:"n_subcharts,omitempty"`
 	// files case
 	Matched  []string      `json:"matched,omitempty"`
+	LibMatched []string    `json:"lib_matched,omitempty"` // round 4: what gobwas/glob matches on its own
 	Gets     [][2]string   `json:"gets,omitempty"`
 	Lines    []c05LinesObs `json:"lines,omitempty"`
 	Config   [][2]string   `json:"config,omitempty"`
@@ -133,7 +134,14 @@ func (*c05) Rule() string {
 		"(dry-run, client-only) 20x sequentially, 16x concurrently, after SaveDir+LoadDir and Save+LoadFile, under changed environment variables, " +
 		"working directory, canary file contents and EnableDNS; plus .Files cases on the real files object; " +
 		"non-trivial = a chart case whose base render succeeded with >= 2 rendered files and at least one of subchart/hook/notes, with all " +
-		"regimes executed, or a files case with >= 2 files and a non-empty glob result; distinct = hash of (case, observation)"
+		"regimes executed, or a files case with >= 2 files and a non-empty glob result; " +
+		"round 4: tree cases (a chart tree built in memory: 0-3 dependencies with 0-2 of their own, library charts in several spellings, duplicate and dotted " +
+		"dependency names, nil template entries, template names path.Join cleans, partials with clashing definitions, render values inserted in shuffled order, " +
+		"templates in the fragment of coq/Render/Mini.v: fields, toJson of the scope and its parts, include, nested tpl with local definitions, required, fail, " +
+		"lookup, .Files.Get; engines Strict / LintMode / with client provider; 14% malformed) observed through engine.allTemplates and Engine.Render, " +
+		"non-trivial = rendered successfully with >= 2 files and >= 1 dependency; funcs cases (6-11 calls of toYaml/toYamlPretty/toJson/toToml/fromYaml/" +
+		"fromYamlArray/fromJson/fromJsonArray/fromToml on value trees and on valid and invalid texts), non-trivial = at least one codec error among the calls; " +
+		"distinct = hash of (case, observation)"
 }
 
 func c05CorpusChart(stream string, files map[string]string, mut func(*c05Case)) c05Case {
@@ -492,7 +500,7 @@ func c05CoqHooks(hs []c05Hook) string {
 	return hx.CoqList(it)
 }
 
-const c05Skip = "CFiles [] \"\" [] [] [] [] [] []"
+const c05Skip = "CFiles [] \"\" [] [] [] [] [] [] [] []"
 
 func (*c05) CoqCase(ci, oi any) string {
 	c, obs := ci.(c05Case), oi.(c05Obs)
@@ -518,8 +526,9 @@ func (*c05) CoqCase(ci, oi any) string {
 			}
 			lines = append(lines, "("+c05Str(l.Name)+", Some "+c05StrList(l.Lines)+")")
 		}
-		return fmt.Sprintf("CFiles %s %s %s %s %s %s %s %s", c05Pairs(from), c05Str(c.Pattern), c05StrList(obs.Matched),
-			c05Pairs(obs.Gets), hx.CoqList(lines), c05Pairs(obs.Config), c05Pairs(obs.Secrets), c05Pairs(obs.GlobGets))
+		return fmt.Sprintf("CFiles %s %s %s %s %s %s %s %s %s %s", c05Pairs(from), c05Str(c.Pattern), c05StrList(obs.Matched),
+			c05Pairs(obs.Gets), hx.CoqList(lines), c05Pairs(obs.Config), c05Pairs(obs.Secrets), c05Pairs(obs.GlobGets),
+			c05StrList(obs.LibMatched), c05StrList(obs.Matched))
 	}
 	var ob string
 	switch obs.Class {
